@@ -203,6 +203,12 @@ def inline_once(rec, fns, vocab, depth_of, stats):
             rec["locals"] = rec["locals"][:dl]
             continue
         for i, a in enumerate(call_args):
+            if spread and i == 0 and clocals[1].get("k") == "ref" and a["k"] in ("move", "copy") and not a["place"]["proj"] \
+                    and rec["locals"][a["place"]["local"]].get("k") == "closure":
+                # FnOnce::call_once(closure by value) on a body that takes &closure: pass a reference to the caller's local
+                pre.append({"k": "assign", "place": {"local": dl + 1, "proj": []}, "rv": {"k": "ref", "mut": bool(clocals[1].get("mut")), "place": {"local": a["place"]["local"], "proj": []}},
+                            "line": t.get("line"), "inl": callee})
+                continue
             pre.append({"k": "assign", "place": {"local": dl + 1 + i, "proj": []}, "rv": {"k": "use", "op": a}, "line": t.get("line"), "inl": callee})
         # callee blocks.  When the call writes a plain local, the callee's return place IS that local (so `_0 = Err(..)` in
         # a helper stays an in-place return of the caller); otherwise a fresh local is copied out at each return.
@@ -254,6 +260,20 @@ BOOL = {"k": "bool"}
 CONTAINS = {"core::ops::RangeInclusive::<Idx>::contains": "Le", "core::ops::Range::<Idx>::contains": "Lt"}
 TRY_BRANCH = "<core::result::Result<T, E> as core::ops::Try>::branch"
 FROM_RESIDUAL = "<core::result::Result<T, F> as core::ops::FromResidual<core::result::Result<core::convert::Infallible, E>>>::from_residual"
+
+
+def resolve_fn_item(prog, fty):
+    """A function item named through its trait (`From::from` with Self = ArrayString<..>): the crate impl method, if unique."""
+    path = fty["path"]
+    if path in prog.fns:
+        return path
+    args = fty.get("args") or []
+    if "::" not in path or not args or args[0].get("k") != "adt":
+        return None
+    trait, meth = path.rsplit("::", 1)
+    selfp = args[0]["path"]
+    cands = [p for p in prog.fns if p.startswith("<" + selfp) and (" as " + trait) in p and p.endswith(">::" + meth)]
+    return cands[0] if len(cands) == 1 else None
 
 
 def _single_def(rec, local):
@@ -364,6 +384,100 @@ def desugar(rec, prog, stats):
             stats.setdefault(rec["path"], []).append("desugar:" + c.rsplit("::", 1)[1])
             changed = True
             continue
+        if c in ("core::cmp::Ordering::then_with", "core::cmp::Ordering::then") and len(t["args"]) == 2 and t["args"][0]["k"] in ("move", "copy") \
+                and not t["args"][0]["place"]["proj"]:
+            # a.then_with(f)  ->  match a { Equal => f(), o => o }        a.then(b) -> match a { Equal => b, o => o }
+            o = t["args"][0]
+            ol = o["place"]["local"]
+            n = len(rec["locals"])
+            rec["locals"].append({"k": "int", "bits": 64, "name": "isize"})
+            nb = len(rec["blocks"])
+            line = t.get("line")
+            # not-equal: the result is a itself
+            rec["blocks"].append({"stmts": [{"k": "assign", "place": copy.deepcopy(t["dest"]), "rv": {"k": "use", "op": {"k": "copy", "place": {"local": ol, "proj": []}}}, "line": line}],
+                                  "term": {"k": "goto", "target": t["target"]}})
+            if c.endswith("then_with"):
+                f_ = t["args"][1]
+                fty = rec["locals"][f_["place"]["local"]] if f_["k"] in ("move", "copy") and not f_["place"]["proj"] else None
+                if not fty or fty.get("k") != "closure":
+                    rec["blocks"].pop()
+                    rec["locals"].pop()
+                    continue
+                unit = len(rec["locals"])
+                rec["locals"].append({"k": "tuple", "elems": []})
+                rec["blocks"].append({"stmts": [{"k": "assign", "place": {"local": unit, "proj": []}, "rv": {"k": "aggregate", "agg": "tuple", "ops": []}, "line": line}],
+                                      "term": {"k": "call", "callee": "core::ops::FnOnce::call_once", "resolved": None, "cargs": [fty, {"k": "tuple", "elems": []}], "rargs": [],
+                                               "args": [copy.deepcopy(f_), {"k": "move", "place": {"local": unit, "proj": []}}], "dest": copy.deepcopy(t["dest"]),
+                                               "target": t["target"], "line": line}})
+            else:
+                rec["blocks"].append({"stmts": [{"k": "assign", "place": copy.deepcopy(t["dest"]), "rv": {"k": "use", "op": copy.deepcopy(t["args"][1])}, "line": line}],
+                                      "term": {"k": "goto", "target": t["target"]}})
+            rec["blocks"].append({"stmts": [], "term": {"k": "unreachable"}})
+            blk["stmts"] = list(blk["stmts"]) + [{"k": "assign", "place": {"local": n, "proj": []}, "rv": {"k": "discr", "place": {"local": ol, "proj": []}}, "line": line}]
+            blk["term"] = {"k": "switch", "discr": {"k": "move", "place": {"local": n, "proj": []}}, "dty": {"k": "int", "bits": 64, "name": "isize"},
+                           "arms": [[0, nb + 1]], "otherwise": nb, "line": line}
+            stats.setdefault(rec["path"], []).append("desugar:" + c.rsplit("::", 1)[1])
+            changed = True
+            continue
+        if c in ("core::result::Result::<T, E>::map", "core::result::Result::<T, E>::map_err", "core::option::Option::<T>::map") and len(t["args"]) == 2 \
+                and t["args"][0]["k"] in ("move", "copy") and not t["args"][0]["place"]["proj"] and not t["dest"]["proj"]:
+            # r.map(f) / r.map_err(f) / o.map(f)  ->  explicit match with a call of f on the payload
+            r = t["args"][0]
+            rl = r["place"]["local"]
+            rty = rec["locals"][rl]
+            dty = rec["locals"][t["dest"]["local"]]
+            f_ = t["args"][1]
+            is_opt = c.startswith("core::option")
+            on_err = c.endswith("map_err")
+            if not (rty.get("k") == "adt" and dty.get("k") == "adt" and rty.get("args") and dty.get("args")):
+                continue
+            # variant layout: Option: None=0, Some=1 ; Result: Ok=0, Err=1
+            hit = (1, "Some") if is_opt else ((1, "Err") if on_err else (0, "Ok"))
+            oth = (0, "None") if is_opt else ((0, "Ok") if on_err else (1, "Err"))
+            pay_in = rty["args"][0] if (is_opt or not on_err) else rty["args"][1]
+            pay_out = dty["args"][0] if (is_opt or not on_err) else dty["args"][1]
+            apath = "core::option::Option" if is_opt else "core::result::Result"
+            line = t.get("line")
+            n = len(rec["locals"])
+            rec["locals"].extend([{"k": "int", "bits": 64, "name": "isize"}, pay_in, pay_out])
+            dsc, pin, pout = n, n + 1, n + 2
+            nb = len(rec["blocks"])
+            # block nb: payload extracted, call f
+            pre = [{"k": "assign", "place": {"local": pin, "proj": []},
+                    "rv": {"k": "use", "op": {"k": "move", "place": {"local": rl, "proj": [{"k": "downcast", "variant": hit[0], "name": hit[1]}, {"k": "field", "i": 0, "ty": pay_in}]}}}, "line": line}]
+            if f_["k"] == "const" and f_.get("ty", {}).get("k") == "fndef":
+                fpath = resolve_fn_item(prog, f_["ty"])
+                callt = {"k": "call", "callee": f_["ty"]["path"], "resolved": fpath, "cargs": f_["ty"].get("args", []), "rargs": f_["ty"].get("args", []),
+                         "args": [{"k": "move", "place": {"local": pin, "proj": []}}], "dest": {"local": pout, "proj": []}, "target": nb + 1, "line": line}
+            elif f_["k"] in ("move", "copy") and not f_["place"]["proj"] and rec["locals"][f_["place"]["local"]].get("k") == "closure":
+                tup = len(rec["locals"])
+                rec["locals"].append({"k": "tuple", "elems": [pay_in]})
+                pre.append({"k": "assign", "place": {"local": tup, "proj": []}, "rv": {"k": "aggregate", "agg": "tuple", "ops": [{"k": "move", "place": {"local": pin, "proj": []}}]}, "line": line})
+                callt = {"k": "call", "callee": "core::ops::FnOnce::call_once", "resolved": None, "cargs": [rec["locals"][f_["place"]["local"]], {"k": "tuple", "elems": [pay_in]}], "rargs": [],
+                         "args": [copy.deepcopy(f_), {"k": "move", "place": {"local": tup, "proj": []}}], "dest": {"local": pout, "proj": []}, "target": nb + 1, "line": line}
+            else:
+                del rec["locals"][n:]
+                continue
+            rec["blocks"].append({"stmts": pre, "term": callt})
+            # block nb+1: wrap the result
+            rec["blocks"].append({"stmts": [{"k": "assign", "place": copy.deepcopy(t["dest"]),
+                                             "rv": {"k": "aggregate", "agg": "adt", "path": apath, "variant": hit[0], "vname": hit[1], "args": dty["args"], "is_enum": True,
+                                                    "ops": [{"k": "move", "place": {"local": pout, "proj": []}}]}, "line": line}],
+                                  "term": {"k": "goto", "target": t["target"]}})
+            # block nb+2: the other variant passes through
+            ops = [] if is_opt else [{"k": "move", "place": {"local": rl, "proj": [{"k": "downcast", "variant": oth[0], "name": oth[1]},
+                                                                               {"k": "field", "i": 0, "ty": rty["args"][1] if not on_err else rty["args"][0]}]}}]
+            rec["blocks"].append({"stmts": [{"k": "assign", "place": copy.deepcopy(t["dest"]),
+                                             "rv": {"k": "aggregate", "agg": "adt", "path": apath, "variant": oth[0], "vname": oth[1], "args": dty["args"], "is_enum": True, "ops": ops},
+                                             "line": line}],
+                                  "term": {"k": "goto", "target": t["target"]}})
+            rec["blocks"].append({"stmts": [], "term": {"k": "unreachable"}})
+            blk["stmts"] = list(blk["stmts"]) + [{"k": "assign", "place": {"local": dsc, "proj": []}, "rv": {"k": "discr", "place": {"local": rl, "proj": []}}, "line": line}]
+            blk["term"] = {"k": "switch", "discr": {"k": "move", "place": {"local": dsc, "proj": []}}, "dty": {"k": "int", "bits": 64, "name": "isize"},
+                           "arms": [[hit[0], nb], [oth[0], nb + 2]], "otherwise": nb + 3, "line": line}
+            stats.setdefault(rec["path"], []).append("desugar:" + c.rsplit("::", 1)[1])
+            changed = True
+            continue
         if c == "core::option::Option::<T>::ok_or" and not t["dest"]["proj"] and len(t["args"]) == 2:
             preds = _preds(rec)
             B = t["target"]
@@ -422,6 +536,115 @@ def desugar(rec, prog, stats):
     return changed
 
 
+def thread_jumps(rec, stats):
+    """Jump threading for desugared combinator chains:  P: `x = Variant_k(..); goto J`   J: `..; d = discr(x); switch d`
+    becomes  P: `x = Variant_k(..); <J's statements>; goto J.arm[k]`.  Only blocks created by this pass' desugaring contain such
+    shapes on today's tree (rustc's own MIR has already been simplified), so this is the identity there."""
+    changed = False
+    preds = _preds(rec)
+    for J, jb in enumerate(rec["blocks"]):
+        t = jb["term"]
+        if t["k"] != "switch" or t["discr"]["k"] not in ("move", "copy") or t["discr"]["place"]["proj"]:
+            continue
+        d = t["discr"]["place"]["local"]
+        x = None
+        for st in jb["stmts"]:
+            if st["k"] == "assign" and st["place"] == {"local": d, "proj": []} and st["rv"]["k"] == "discr" and not st["rv"]["place"]["proj"]:
+                x = st["rv"]["place"]["local"]
+        if x is None:
+            continue
+        # J must not write x itself
+        if any(st["k"] == "assign" and st["place"]["local"] == x for st in jb["stmts"]):
+            continue
+        for P in sorted(preds.get(J, ())):
+            pb = rec["blocks"][P]
+            if pb["term"]["k"] != "goto" or P == J:
+                continue
+            k = None
+            for st in pb["stmts"]:
+                if st["k"] == "assign" and st["place"]["local"] == x:
+                    if not st["place"]["proj"] and st["rv"]["k"] == "aggregate" and st["rv"].get("is_enum") and isinstance(st["rv"].get("variant"), int):
+                        k = st["rv"]["variant"]
+                    else:
+                        k = None
+            if k is None:
+                continue
+            tgt = None
+            for v, tb in t["arms"]:
+                if v == k:
+                    tgt = tb
+            if tgt is None:
+                tgt = t["otherwise"]
+            pb["stmts"] = list(pb["stmts"]) + copy.deepcopy(jb["stmts"])
+            pb["term"] = {"k": "goto", "target": tgt}
+            stats.setdefault(rec["path"], []).append("thread")
+            changed = True
+    return changed
+
+
+def forward_return_temp(rec, stats):
+    """`tmp = Ok(..) | Err(..)` on several paths, later `_0 = move tmp` as the only use of tmp:  build the result in `_0` directly.
+    (A pure renaming of a local that is otherwise dead; it lets rules that look for in-place `_0 = Err(..)` see through
+    `let result = ..; cleanup(); result`.)"""
+    moves = []
+    for bi, blk in enumerate(rec["blocks"]):
+        for si, st in enumerate(blk["stmts"]):
+            if st["k"] == "assign" and st["place"] == {"local": 0, "proj": []} and st["rv"]["k"] == "use" and st["rv"]["op"]["k"] == "move" \
+                    and not st["rv"]["op"]["place"]["proj"]:
+                moves.append((bi, si, st["rv"]["op"]["place"]["local"]))
+    if len(moves) != 1:
+        return False
+    bi, si, tmp = moves[0]
+    if tmp == 0 or tmp <= rec.get("argc", 0) or rec["locals"][tmp] != rec["locals"][0]:
+        return False
+    # every other assignment of _0?  none allowed
+    writes0 = 0
+    defs = []
+    uses = 0
+
+    def count_uses(x):
+        n = 0
+        if isinstance(x, dict):
+            if "local" in x and "proj" in x and isinstance(x["proj"], list):
+                if x["local"] == tmp:
+                    n += 1
+                for pr in x["proj"]:
+                    if pr.get("k") == "index" and pr.get("local") == tmp:
+                        n += 1
+                return n
+            for v in x.values():
+                n += count_uses(v)
+        elif isinstance(x, list):
+            for v in x:
+                n += count_uses(v)
+        return n
+    for b2, blk in enumerate(rec["blocks"]):
+        for s2, st in enumerate(blk["stmts"]):
+            if st["k"] != "assign":
+                uses += count_uses(st)
+                continue
+            if st["place"]["local"] == 0:
+                writes0 += 1
+            if st["place"] == {"local": tmp, "proj": []}:
+                if not (st["rv"]["k"] == "aggregate" and st["rv"].get("vname") in ("Ok", "Err", "Some", "None")):
+                    return False
+                defs.append((b2, s2))
+                uses += count_uses(st["rv"])
+            else:
+                uses += count_uses(st)
+        t = blk["term"]
+        if t["k"] == "call" and t["dest"]["local"] == tmp:
+            return False
+        uses += count_uses(t)
+    if len(defs) < 2 or uses != 1:
+        return False
+    for b2, s2 in defs:
+        rec["blocks"][b2]["stmts"][s2] = dict(rec["blocks"][b2]["stmts"][s2], place={"local": 0, "proj": []})
+    del rec["blocks"][bi]["stmts"][si]
+    stats.setdefault(rec["path"], []).append("forward-return")
+    return True
+
+
 def apply(prog):
     """Inline helper calls in every function of the program (in place).  Returns {caller: [inlined callees]}."""
     from facts import Fn
@@ -431,17 +654,22 @@ def apply(prog):
     stats = {}
     touched = set()
     for p, rec in recs.items():
-        if desugar(rec, prog, stats):
+        for _ in range(6):
+            if not desugar(rec, prog, stats):
+                break
             touched.add(p)
     depth_of = {}
     for p, rec in recs.items():
-        if not helpers:
-            break
         for _ in range(MAX_DEPTH + 1):
             before = len(rec["blocks"])
             if not inline_once(rec, recs, vocab, depth_of, stats):
                 break
             touched.add(p)
+    for p in list(touched):
+        for _ in range(4):
+            if not thread_jumps(recs[p], stats):
+                break
+        forward_return_temp(recs[p], stats)
     for p in touched:
         prog.fns[p] = Fn(recs[p])
     prog.inlined = stats
